@@ -255,6 +255,15 @@ pub fn run(scn: &Scenario, record: bool) -> RunResult {
                 ([g.dirs[0].wbudget.is_some(), g.dirs[1].wbudget.is_some()], [g.dirs[0].inflight.len(), g.dirs[1].inflight.len()])
             };
             let _ = inflight;
+            // census of the pure getters on all live handles, at every quiescence
+            w.lock().unwrap().log(json!({"t": "census_begin"}));
+            for s in slots.iter_mut() {
+                if !s.done {
+                    let mut sim = SimCtx { w: &w, reg: &mut reg, spawn: &mut spawn, scn };
+                    s.task.census(&mut sim);
+                }
+            }
+            w.lock().unwrap().log(json!({"t": "census_end"}));
             // guarded statistics snapshot (hook H2) at quiescence
             for s in slots.iter() {
                 if s.task.is_conn() {
